@@ -241,6 +241,19 @@ Theorem C10_use_symbol_filter_order_refuted :
       = [(2%N, 3%N); (0%N, c)].
 Proof. exact use_symbol_filter_order_refuted. Qed.
 Print Assumptions C10_use_symbol_filter_order_refuted.
+(* guarded counterpart (known class use-symbol-filter-inside-viewport-clip): conversion = viewport clip, then the use's effects;
+   expansion = the use's effects, then the viewport clip; same tail.  Without a filter on the use only clip-paths / masks change
+   sides with the viewport clip, and those commute with a clip *)
+Theorem C10_use_symbol_order_guarded : forall id orig_ts new_ts st sym_st c k sh,
+  g_filter st = [] ->
+  Forall (fun e => fst e <> 2%N) (effects st) /\
+  exists tl tl',
+    map fst (match cleaves_of (convert_use_symbol id orig_ts new_ts st sym_st (Some c) [TLeaf k sh]) with [(_, _, _, l)] => l | _ => [] end)
+      = (0%N, c) :: effects st ++ tl /\
+    map fst (match cleaves_of (expand_use_symbol id orig_ts new_ts st sym_st (Some c) [TLeaf k sh]) with [(_, _, _, l)] => l | _ => [] end)
+      = effects st ++ (0%N, c) :: tl' /\ tl = tl'.
+Proof. exact use_symbol_order_guarded. Qed.
+Print Assumptions C10_use_symbol_order_guarded.
 (* inheritance through use: expanding every use (any nesting, any chain length) by a group leaves every resolved property
    unchanged, and a chain of n uses hands its target the innermost value set along the chain *)
 Theorem C10_inherit_through_use : forall e inh, resolved inh (expand_uses e) = resolved inh e.
